@@ -7,7 +7,11 @@ from fvsym.rt import *  # noqa
 
 
 def mk_tensor(ids, nest, explicit):
-    """operand tensor from a dense nest; explicit=True keeps zeros as explicit defaults / all-zero rows as all-default sub-fibers"""
+    """operand tensor from a dense nest; explicit=True keeps zeros as explicit defaults / all-zero rows as all-default sub-fibers;
+    explicit="estimated" builds the canonical tree (zeros dropped) but gives the tensor no shape, so every rank shape is estimated"""
+    if explicit == "estimated":
+        f = Fiber.fromUncompressed(nest)
+        return Tensor.fromFiber(ids, f)
     if explicit:
         def build(n):
             if isinstance(n[0], list):
@@ -146,6 +150,25 @@ def mv(A, B, variant, style="2f", explicit=False, cnt=None, z0=None):
                 for k0, (a_val, b_val) in isect(a_k0, b_k0, style):
                     cnt.body("K.0")
                     leaf(z_ref, a_val, b_val)
+    elif variant.startswith("KM1M0"):
+        # M tiled by s, then the loop order rotates three ranks: (M.1, M.0, K) -> (K, M.1, M.0)
+        s = int(variant.split("/")[1])
+        a2 = a.splitUniform(s).swizzleRanks(["K", "M.1", "M.0"])
+        z2 = z.splitUniform(s)
+        for k, (a_m1, b_val) in isect(a2.getRoot(), b.getRoot(), style):
+            cnt.body("K")
+            if style == "lf" and pv(b_val) == 0:
+                continue
+            for m1, (z_m0, a_m0) in z2.getRoot() << a_m1:
+                cnt.body("M.1")
+                for m0, (z_ref, a_val) in z_m0 << a_m0:
+                    cnt.body("M.0")
+                    leaf(z_ref, a_val, b_val)
+        out = [0] * M
+        for c1, p1 in zip(z2.getRoot().coords, z2.getRoot().payloads):
+            for c0, p0 in zip(p1.coords, p1.payloads):
+                out[c0] = pv(p0)
+        return out, z2, cnt
     elif variant.startswith("M1M0K"):
         s = int(variant.split("/")[1])
         a2 = a.splitUniform(s)
